@@ -131,7 +131,26 @@ func flaggedFuncs(p *core.Prog, iface *types.Interface) (map[*ssa.Function]map[i
 			continue
 		}
 		if !types.Implements(f.Signature.Recv().Type(), iface) {
-			continue
+			// a method promoted from an embedded base (baseCompiledExpr) has the interface method's signature
+			var im *types.Func
+			for i := 0; i < iface.NumMethods(); i++ {
+				if iface.Method(i).Name() == f.Name() {
+					im = iface.Method(i)
+				}
+			}
+			ms, is := im.Type().(*types.Signature), f.Signature
+			if ms.Params().Len() != is.Params().Len() {
+				continue
+			}
+			same := true
+			for i := 0; i < ms.Params().Len(); i++ {
+				if !types.Identical(ms.Params().At(i).Type(), is.Params().At(i).Type()) {
+					same = false
+				}
+			}
+			if !same {
+				continue
+			}
 		}
 		nImpl++
 		add(f, idx+1)
